@@ -14,6 +14,13 @@ package obiseq
 //                c07_poolgen.py) by a pool whose every Get answer (any pooled item, or New) is a branch.
 //                Oracle: value-semantics model (each object owns its bytes) + after every step a probe that
 //                flips every byte / annotation of every live object and requires all the others to stay put.
+//                The sources carry pairing_mismatches (in-memory and JSON-decoded Go representation): the positions
+//                of every derived object are the composition of the coordinate transforms of the statement.
+//                The revcomp cache (known findings) is modelled exactly (c07world.link / hidden): the known keys are
+//                used only for the documented answers of the cache, anything else gets its own key.
+// (audit) E1 also drives ReverseComplementWorker, windows of s+s starting in the second copy, 4 Go representations
+//                of the annotation, every circular (from,to) for annotations. The command level (real obicomplement
+//                binary) is in zz_verif_c07cli_test.go.
 
 import (
 	"bytes"
@@ -23,6 +30,7 @@ import (
 	"io"
 	"reflect"
 	"sort"
+	"strconv"
 	"strings"
 	"testing"
 	"unsafe"
@@ -53,6 +61,7 @@ type c07case struct {
 	Upper bool      `json:"upper,omitempty"`
 	Q     int       `json:"q,omitempty"`   // 0 none, 1: q[i]=i, 2: q[i]=93-i
 	Pos   []int     `json:"pos,omitempty"` // E1ann: annotated (1-based) positions
+	Rep   int       `json:"rep,omitempty"` // E1ann: Go type of the annotation value (c07annReps)
 	Root  string    `json:"root,omitempty"`
 	Steps []c07step `json:"steps,omitempty"`
 }
@@ -176,6 +185,28 @@ func c07e1(c c07case, fail c07fail) (laws int64) {
 		}
 	})
 
+	// the SeqWorker wrapper used by the commands (obicomplement: inplace=true)
+	c07guard("ReverseComplementWorker", fail, func() {
+		want := string(c07rcRef([]byte(orig)))
+		for _, inpl := range []bool{false, true} {
+			laws++
+			a := c07mk(c)
+			out, err := ReverseComplementWorker(inpl)(a)
+			if err != nil || len(out) != 1 || out[0] == nil {
+				fail("ReverseComplementWorker/not-exactly-one-result", fmt.Sprintf("%s inplace=%v: %d results, error %v", in, inpl, len(out), err))
+				continue
+			}
+			if !eqs(out[0], want) {
+				fail(fmt.Sprintf("ReverseComplementWorker/not-the-reverse-complement:seq(inplace=%v)", inpl), fmt.Sprintf("%s: worker returned %q, want %q", in, out[0].String(), want))
+			} else if !eqq(out[0], c07rev(q)) {
+				fail(fmt.Sprintf("ReverseComplementWorker/not-the-reverse-complement:qual(inplace=%v)", inpl), fmt.Sprintf("%s: worker returned qualities %v, want %v", in, out[0].Qualities(), c07rev(q)))
+			}
+			if !inpl && (a.String() != orig || !eqq(a, q)) {
+				fail("ReverseComplementWorker/modifies-source(inplace=false)", fmt.Sprintf("%s: source is %q/%v after the worker", in, a.String(), a.Qualities()))
+			}
+		}
+	})
+
 	// windows
 	c07guard("Subsequence", fail, func() {
 		a := c07mk(c)
@@ -234,23 +265,80 @@ func c07e1(c c07case, fail c07fail) (laws int64) {
 			fail("Subsequence/modifies-source", fmt.Sprintf("%s: source is %q/%v after taking subsequences", in, a.String(), a.Qualities()))
 		}
 	})
+	c07guard("Subsequence(circular,from>=length)", fail, func() {
+		a := c07mk(c)
+		ss := orig + orig
+		qq := append(append([]byte{}, q...), q...)
+		// windows of s+s that start in the second copy: L<=f<2L, f<t<=2L
+		for f := L; f < 2*L; f++ {
+			for t := f + 1; t <= 2*L; t++ {
+				laws++
+				w := fmt.Sprintf("%s circular from=%d to=%d", in, f, t)
+				x, err := a.Subsequence(f, t, true)
+				if err != nil || x == nil {
+					fail("Subsequence/circular-window-refused:from-beyond-length", fmt.Sprintf("%s: %v", w, err))
+					continue
+				}
+				if !eqs(x, ss[f:t]) {
+					fail("Subsequence/circular-window-wrong:seq:from-beyond-length", fmt.Sprintf("%s: got %q want %q (window [%d,%d) of s+s)", w, x.String(), ss[f:t], f, t))
+				} else if q != nil && !eqq(x, qq[f:t]) {
+					fail("Subsequence/circular-window-wrong:qual:from-beyond-length", fmt.Sprintf("%s: got %v want %v", w, x.Qualities(), qq[f:t]))
+				}
+			}
+		}
+	})
 	return laws
 }
 
 // ---- pairing_mismatches (1-based positions, keys "(A:30)->(C:20)") ----
 
-func c07annKey(p int) string { return fmt.Sprintf("(A:%02d)->(C:%02d)", 30+p, 10+p) }
+// letters of the two reads at the mismatch of position p (obipairing writes upper-case IUPAC letters)
+var c07annLetters = [][2]byte{{'A', 'C'}, {'G', 'T'}, {'R', 'A'}, {'T', 'N'}, {'C', 'Y'}, {'N', 'G'}}
+
+func c07annKey(p int) string {
+	l := c07annLetters[(p-1)%len(c07annLetters)]
+	return fmt.Sprintf("(%c:%02d)->(%c:%02d)", l[0], 30+p, l[1], 10+p)
+}
 
 // c07annRcKey is what the key of position p becomes on the other strand (sides swapped, bases complemented).
-func c07annRcKey(p int) string { return fmt.Sprintf("(G:%02d)->(T:%02d)", 10+p, 30+p) }
+func c07annRcKey(p int) string {
+	l := c07annLetters[(p-1)%len(c07annLetters)]
+	return fmt.Sprintf("(%c:%02d)->(%c:%02d)", c07comp[l[1]|0x20]&^0x20, 10+p, c07comp[l[0]|0x20]&^0x20, 30+p)
+}
+
+// Go types under which the annotation reaches the code: built by obipairing (map[string]int), read back from
+// a JSON title line (map[string]interface{} of float64), from an OBI title line / other producers (interface{} of
+// int, map[string]float64)
+var c07annReps = []string{"map[string]int", "map[string]interface{}{float64}", "map[string]interface{}{int}", "map[string]float64"}
 
 func c07mkAnn(c c07case) *BioSequence {
 	s := NewBioSequence("s", []byte(c.S), "")
-	m := map[string]int{}
-	for _, p := range c.Pos {
-		m[c07annKey(p)] = p
+	var val interface{}
+	switch c.Rep {
+	case 0:
+		m := map[string]int{}
+		for _, p := range c.Pos {
+			m[c07annKey(p)] = p
+		}
+		val = m
+	case 1, 2:
+		m := map[string]interface{}{}
+		for _, p := range c.Pos {
+			if c.Rep == 1 {
+				m[c07annKey(p)] = float64(p)
+			} else {
+				m[c07annKey(p)] = p
+			}
+		}
+		val = m
+	default:
+		m := map[string]float64{}
+		for _, p := range c.Pos {
+			m[c07annKey(p)] = float64(p)
+		}
+		val = m
 	}
-	s.SetAttribute("pairing_mismatches", m)
+	s.SetAttribute("pairing_mismatches", val)
 	return s
 }
 
@@ -272,7 +360,7 @@ func c07annGet(s *BioSequence) map[string]int {
 
 func c07e1ann(c c07case, fail c07fail) (laws int64) {
 	L := len(c.S)
-	in := fmt.Sprintf("seq=%q pairing_mismatches at positions %v", c.S, c.Pos)
+	in := fmt.Sprintf("seq=%q pairing_mismatches (%s) at positions %v", c.S, c07annReps[c.Rep], c.Pos)
 	c07guard("pairing_mismatches", fail, func() {
 		a := c07mkAnn(c)
 		// rc: p -> L-p+1
@@ -351,28 +439,38 @@ func c07e1ann(c c07case, fail c07fail) (laws int64) {
 				}
 			}
 		}
-		// circular wrapped windows (from >= to): p>from -> p-from ; p<=to -> p+L-from
+		// every circular (from,to), 0<=from<L, 1<=to<=from+L. to is taken modulo L (tt); from < tt: plain window
+		// p -> p-from; else wrapped: p>from -> p-from ; p<=tt -> p+L-from
 		for f := 0; f < L; f++ {
-			for t := 1; t <= f; t++ {
+			for t := 1; t <= f+L; t++ {
 				laws++
 				w := fmt.Sprintf("%s circular from=%d to=%d", in, f, t)
 				x, err := a.Subsequence(f, t, true)
 				if err != nil {
 					continue
 				}
+				tt := (t-1)%L + 1
+				sublen := tt - f
+				if f >= tt {
+					sublen = L - f + tt
+				}
 				got := c07annGet(x)
 				for _, p := range c.Pos {
 					want := -1
-					if p > f {
+					if f < tt {
+						if p > f && p <= tt {
+							want = p - f
+						}
+					} else if p > f {
 						want = p - f
-					} else if p <= t {
+					} else if p <= tt {
 						want = p + L - f
 					}
 					v, ok := got[c07annKey(p)]
 					if want > 0 && (!ok || v != want) {
 						fail("pairing_mismatches/Subsequence-circular:in-window-position-lost-or-wrong", fmt.Sprintf("%s: mismatch at source position %d should be at %d; annotation is %v", w, p, want, got))
-					} else if want < 0 && ok && (v < 1 || v > L-f+t) {
-						fail("pairing_mismatches/Subsequence-circular:out-of-window-entry-kept-at-invalid-position", fmt.Sprintf("%s: mismatch at source position %d is outside the window but kept at position %d of a subsequence of length %d", w, p, v, L-f+t))
+					} else if want < 0 && ok && (v < 1 || v > sublen) {
+						fail("pairing_mismatches/Subsequence-circular:out-of-window-entry-kept-at-invalid-position", fmt.Sprintf("%s: mismatch at source position %d is outside the window but kept at position %d of a subsequence of length %d", w, p, v, sublen))
 					} else if want < 0 && ok {
 						fail("pairing_mismatches/Subsequence-circular:out-of-window-entry-kept", fmt.Sprintf("%s: mismatch at source position %d is outside the window but kept at %d", w, p, v))
 					}
@@ -391,7 +489,8 @@ type c07val struct {
 	seq  []byte
 	qual []byte // nil: no qualities
 	feat string
-	ann  string // canonical rendering of the annotation map
+	ann  string         // canonical rendering of the annotation map (pairing_mismatches excluded)
+	pm   map[string]int // pairing_mismatches: upper-cased key -> 1-based position (nil or empty: none)
 }
 
 type c07obj struct {
@@ -407,6 +506,12 @@ type c07tp struct {
 
 type c07world struct {
 	lastMod map[int]string // last operation that modified the object in place ("" = none since creation)
+	// model of the documented revcomp cache (known findings): link[h] = handle of the object that
+	// ReverseComplement(h) is documented to answer with (h was made by ReverseComplement(false) from it, or the
+	// private copy of it that a Copy of h already handed out); hidden[h] = value of the private copy of the
+	// original that a Copy of a complemented object holds and that no handle designates yet.
+	link   map[int]int
+	hidden map[int]*c07val
 	objs   []*c07obj
 	tps    []*c07tp
 	putBy  map[*[]byte]string
@@ -523,16 +628,64 @@ func c07annCanon(s *BioSequence) string {
 	a := s.Annotations()
 	keys := make([]string, 0, len(a))
 	for k := range a {
-		keys = append(keys, k)
+		if k != "pairing_mismatches" { // modelled apart (c07val.pm)
+			keys = append(keys, k)
+		}
 	}
 	sort.Strings(keys)
 	var sb strings.Builder
 	sb.WriteByte('{')
 	for _, k := range keys {
-		fmt.Fprintf(&sb, "%s=%v;", k, a[k])
+		sb.WriteString(k)
+		sb.WriteByte('=')
+		c07annVal(&sb, a[k])
+		sb.WriteByte(';')
 	}
 	sb.WriteByte('}')
 	return sb.String()
+}
+
+// c07annVal renders an annotation value deterministically (hand-written for the usual types: this is the hot spot
+// of the sharing probe)
+func c07annVal(sb *strings.Builder, v interface{}) {
+	switch t := v.(type) {
+	case int:
+		sb.WriteString(strconv.Itoa(t))
+	case string:
+		sb.WriteString(t)
+	case float64:
+		sb.WriteString(strconv.FormatFloat(t, 'g', -1, 64))
+	case map[string]int:
+		keys := make([]string, 0, len(t))
+		for k := range t {
+			keys = append(keys, k)
+		}
+		sort.Strings(keys)
+		sb.WriteString("map[")
+		for _, k := range keys {
+			sb.WriteString(k)
+			sb.WriteByte(':')
+			sb.WriteString(strconv.Itoa(t[k]))
+			sb.WriteByte(' ')
+		}
+		sb.WriteByte(']')
+	case map[string]interface{}:
+		keys := make([]string, 0, len(t))
+		for k := range t {
+			keys = append(keys, k)
+		}
+		sort.Strings(keys)
+		sb.WriteString("map{")
+		for _, k := range keys {
+			sb.WriteString(k)
+			sb.WriteByte(':')
+			c07annVal(sb, t[k])
+			sb.WriteByte(' ')
+		}
+		sb.WriteByte('}')
+	default:
+		fmt.Fprintf(sb, "%T:%v", v, v)
+	}
 }
 
 func c07rcRef(b []byte) []byte {
@@ -557,6 +710,86 @@ func c07rcRef(b []byte) []byte {
 }
 
 func c07default(n int) []byte { return bytes.Repeat([]byte{40}, n) }
+
+// ---- pairing_mismatches along histories: the coordinate transforms of the statement ----
+
+func c07pmClone(m map[string]int) map[string]int {
+	o := make(map[string]int, len(m))
+	for k, v := range m {
+		o[k] = v
+	}
+	return o
+}
+
+func c07pmString(m map[string]int) string {
+	keys := make([]string, 0, len(m))
+	for k := range m {
+		keys = append(keys, k)
+	}
+	sort.Strings(keys)
+	var sb strings.Builder
+	for _, k := range keys {
+		fmt.Fprintf(&sb, "%s@%d,", k, m[k])
+	}
+	return sb.String()
+}
+
+func c07pmEqual(a, b map[string]int) bool {
+	if len(a) != len(b) {
+		return false
+	}
+	for k, v := range a {
+		if w, ok := b[k]; !ok || w != v {
+			return false
+		}
+	}
+	return true
+}
+
+// key "(X:qq)->(Y:rr)" seen from the other strand: "(comp(Y):rr)->(comp(X):qq)"
+func c07pmRcKey(k string) string {
+	b := []byte(k)
+	if len(b) != 14 {
+		return k
+	}
+	cp := func(x byte) byte {
+		if y, ok := c07comp[x|0x20]; ok {
+			return y &^ 0x20
+		}
+		return x
+	}
+	b[1], b[9] = cp(b[9]), cp(b[1])
+	b[3], b[4], b[11], b[12] = b[11], b[12], b[3], b[4]
+	return string(b)
+}
+
+func c07pmRc(m map[string]int, L int) map[string]int {
+	o := make(map[string]int, len(m))
+	for k, p := range m {
+		o[c07pmRcKey(k)] = L - p + 1
+	}
+	return o
+}
+
+// window [f,t) (circular: to taken modulo L, wrapped when from >= to) of a sequence of length L
+func c07pmSub(m map[string]int, f, t int, circ bool, L int) map[string]int {
+	o := make(map[string]int, len(m))
+	if circ {
+		f = f % L
+		t = (t-1)%L + 1
+	}
+	for k, p := range m {
+		switch {
+		case f < t && p > f && p <= t:
+			o[k] = p - f
+		case f >= t && p > f:
+			o[k] = p - f
+		case f >= t && p <= t:
+			o[k] = p + L - f
+		}
+	}
+	return o
+}
 
 // observable value of an implementation object
 func c07observe(s *BioSequence) (seq, qual []byte, feat, ann string) {
@@ -588,6 +821,9 @@ func (w *c07world) diffw(i int, what int) (field, desc string) {
 		if ann := c07annCanon(o.impl); ann != o.m.ann {
 			return "annotations", fmt.Sprintf("obj%d annotations are %s, model says %s", i, ann, o.m.ann)
 		}
+		if pm := c07annGet(o.impl); !c07pmEqual(pm, o.m.pm) {
+			return "annotations(pairing_mismatches)", fmt.Sprintf("obj%d pairing_mismatches are {%s}, the coordinate transforms give {%s}", i, c07pmString(pm), c07pmString(o.m.pm))
+		}
 	}
 	return "", ""
 }
@@ -605,7 +841,7 @@ func (w *c07world) newObj(impl *BioSequence, m c07val) int {
 
 func c07root(root string) *c07world {
 	c07resetPools()
-	w := &c07world{putBy: map[*[]byte]string{}}
+	w := &c07world{putBy: map[*[]byte]string{}, link: map[int]int{}, hidden: map[int]*c07val{}}
 	c07cur = w
 	w.enum = false
 	var s *BioSequence
@@ -618,10 +854,38 @@ func c07root(root string) *c07world {
 	}
 	s.SetAttribute("k", 1)
 	s.SetAttribute("m", map[string]int{"x": 1})
+	// mismatches at positions 1 and 3: as obipairing builds them (root n) / as read back from a JSON title line (root q)
+	if root == "q" {
+		s.SetAttribute("pairing_mismatches", map[string]interface{}{c07annKey(1): float64(1), c07annKey(3): float64(3)})
+	} else {
+		s.SetAttribute("pairing_mismatches", map[string]int{c07annKey(1): 1, c07annKey(3): 3})
+	}
+	m.pm = map[string]int{c07annKey(1): 1, c07annKey(3): 3}
 	m.ann = c07annCanon(s)
 	w.newObj(s, m)
 	w.tag("setup")
 	return w
+}
+
+// copyLink: dst was made by Copy() of src. The documented cache gives the copy of a complemented object a
+// private copy of the cached original (value of the original at the time of the Copy).
+func (w *c07world) copyLink(src, dst int) {
+	if e, ok := w.link[src]; ok {
+		hv := &c07val{seq: []byte{}}
+		if o := w.objs[e]; o.alive {
+			hv.seq = append([]byte{}, o.m.seq...)
+			if o.m.qual != nil {
+				hv.qual = append([]byte{}, o.m.qual...)
+			}
+		}
+		w.hidden[dst] = hv
+	} else if h := w.hidden[src]; h != nil {
+		hv := &c07val{seq: append([]byte{}, h.seq...)}
+		if h.qual != nil {
+			hv.qual = append([]byte{}, h.qual...)
+		}
+		w.hidden[dst] = hv
+	}
 }
 
 func (w *c07world) tag(op string) {
@@ -696,7 +960,8 @@ func (w *c07world) apply(st *c07step, check bool) (v *c07viol) {
 	}
 	w.curOp = opName
 	result := -1       // handle whose value is (re)defined by this op
-	cachedPath := false // ReverseComplement answered from the cached link
+	cachedPath := false // the receiver of ReverseComplement holds a cached link
+	rcDoc := false      // ReverseComplement answered with the (stale) private copy of the original, as the documented cache does
 	var panicked interface{}
 	if w.lastMod == nil {
 		w.lastMod = map[int]string{}
@@ -715,13 +980,17 @@ func (w *c07world) apply(st *c07step, check bool) (v *c07viol) {
 				v = &c07viol{"Copy/returns-existing-object", fmt.Sprintf("Copy(obj%d) returned the object obj%d", st.A, e)}
 				return
 			}
-			result = w.newObj(r, c07val{seq: append([]byte{}, arg.m.seq...), qual: append([]byte(nil), arg.m.qual...), feat: arg.m.feat, ann: arg.m.ann})
+			result = w.newObj(r, c07val{seq: append([]byte{}, arg.m.seq...), qual: append([]byte(nil), arg.m.qual...), feat: arg.m.feat, ann: arg.m.ann, pm: c07pmClone(arg.m.pm)})
 			if arg.m.qual == nil {
 				w.objs[result].m.qual = nil
 			}
+			w.copyLink(st.A, result)
 		case "RC", "RCin":
 			cachedPath = c07hasCache(arg.impl)
-			r := arg.impl.ReverseComplement(st.Op == "RCin")
+			inplace := st.Op == "RCin"
+			predLink, hasLink := w.link[st.A]
+			predHidden := w.hidden[st.A]
+			r := arg.impl.ReverseComplement(inplace)
 			nm := c07val{seq: c07rcRef(arg.m.seq)}
 			if arg.m.qual != nil {
 				nm.qual = c07rev(arg.m.qual)
@@ -730,19 +999,33 @@ func (w *c07world) apply(st *c07step, check bool) (v *c07viol) {
 				v = &c07viol{"ReverseComplement/nil-result", "nil result"}
 				return
 			}
+			wq := nm.qual
+			if wq == nil {
+				wq = c07default(len(nm.seq))
+			}
 			except := -1
-			if st.Op == "RCin" {
+			if inplace {
 				except = st.A
 			}
 			if e := w.existing(r, except); e >= 0 {
 				// the result is an object the caller already holds under another handle
 				seq, qual, _, _ := c07observe(r)
-				wq := nm.qual
-				if wq == nil {
-					wq = c07default(len(nm.seq))
+				what := fmt.Sprintf("ReverseComplement(obj%d, inplace=%v) returned the already existing object obj%d whose value is %q/%v; the reverse complement of obj%d is %q/%v",
+					st.A, inplace, e, seq, qual, st.A, nm.seq, wq)
+				if !hasLink || e != predLink {
+					// NOT the documented behaviour of the cache (known findings): the answer is a live object that
+					// the receiver was not complemented from
+					switch {
+					case hasLink:
+						v = &c07viol{"ReverseComplement/returns-existing-object:not-the-object-the-receiver-was-complemented-from", what + fmt.Sprintf(" — obj%d was complemented from obj%d", st.A, predLink)}
+					case predHidden != nil:
+						v = &c07viol{"ReverseComplement/returns-existing-object:copy-shares-the-cached-original-of-its-source", what + fmt.Sprintf(" — obj%d is a copy of a complemented object: it should at least own a private copy of the cached original", st.A)}
+					default:
+						v = &c07viol{"ReverseComplement/returns-existing-object:receiver-was-never-complemented-from-it", what}
+					}
+					return
 				}
-				what := fmt.Sprintf("ReverseComplement(obj%d, inplace=%v) returned the already existing object obj%d (cached original) whose value is %q/%v; the reverse complement of obj%d is %q/%v",
-					st.A, st.Op == "RCin", e, seq, qual, st.A, nm.seq, wq)
+				what = strings.Replace(what, "already existing object obj"+fmt.Sprint(e), "already existing object obj"+fmt.Sprint(e)+" (cached original)", 1)
 				switch {
 				case !w.objs[e].alive:
 					v = &c07viol{"ReverseComplement/cached-original:returns-recycled-object", what + " — obj" + fmt.Sprint(e) + " had been recycled"}
@@ -758,14 +1041,40 @@ func (w *c07world) apply(st *c07step, check bool) (v *c07viol) {
 				}
 				return
 			}
+			// a fresh object (or the receiver itself, in place). When the receiver is a copy of a complemented
+			// object the documented cache answers with the private copy of the original made by Copy: a wrong
+			// value is the known finding only if it IS the value of that copy.
+			if predHidden != nil && r != arg.impl {
+				seq, qual, _, _ := c07observe(r)
+				hq := predHidden.qual
+				if hq == nil {
+					hq = c07default(len(predHidden.seq))
+				}
+				right := strings.EqualFold(string(seq), string(nm.seq)) && bytes.Equal(qual, wq)
+				rcDoc = !right && strings.EqualFold(string(seq), string(predHidden.seq)) && bytes.Equal(qual, hq)
+			}
+			delete(w.hidden, st.A)
 			nm.feat = r.Features()
 			nm.ann = c07annCanon(r)
-			if st.Op == "RCin" {
+			if predHidden != nil && r != arg.impl {
+				nm.pm = c07annGet(r) // answered with the cached copy of the original: covered by the known finding
+			} else {
+				nm.pm = c07pmRc(arg.m.pm, len(arg.m.seq))
+			}
+			if inplace {
+				if r != arg.impl {
+					delete(w.link, st.A) // the handle now designates the object that was returned
+				}
 				arg.impl = r
 				arg.m = nm
 				result = st.A
 			} else {
 				result = w.newObj(r, nm)
+				if predHidden != nil {
+					w.link[st.A] = result // the private copy is now held by the caller
+				} else if !hasLink {
+					w.link[result] = st.A
+				}
 			}
 		case "Sub":
 			r, err := arg.impl.Subsequence(st.F, st.T, st.Circ)
@@ -780,6 +1089,7 @@ func (w *c07world) apply(st *c07step, check bool) (v *c07viol) {
 			nm := c07windowVal(arg.m, st.F, st.T, st.Circ)
 			nm.feat = r.Features()
 			nm.ann = c07annCanon(r)
+			nm.pm = c07pmSub(arg.m.pm, st.F, st.T, st.Circ, len(arg.m.seq))
 			result = w.newObj(r, nm)
 		case "MutSeq":
 			nb := byte('g')
@@ -865,7 +1175,7 @@ func (w *c07world) apply(st *c07step, check bool) (v *c07viol) {
 					v = &c07viol{"Join/inplace-returns-other-object", "Join(inplace=true) returned a different object"}
 					return
 				}
-				nm.feat, nm.ann = arg.m.feat, arg.m.ann
+				nm.feat, nm.ann, nm.pm = arg.m.feat, arg.m.ann, arg.m.pm
 				arg.m = nm
 				result = st.A
 			} else {
@@ -875,7 +1185,9 @@ func (w *c07world) apply(st *c07step, check bool) (v *c07viol) {
 				}
 				nm.feat = r.Features()
 				nm.ann = c07annCanon(r)
+				nm.pm = c07annGet(r) // Join is not part of the statement: tracked by value from here on
 				result = w.newObj(r, nm)
+				w.copyLink(st.A, result)
 			}
 		case "TGet":
 			t := &c07tp{held: true}
@@ -921,7 +1233,7 @@ func (w *c07world) apply(st *c07step, check bool) (v *c07viol) {
 		switch {
 		case len(w.events) > 0:
 			return &c07viol{"pool/" + w.events[0], fmt.Sprintf("%s; during %s GetSlice was answered with a pooled pointer to a slice that is still in use (%s)", d, st.Op, strings.Join(w.events, ", "))}
-		case i == result && opName == "ReverseComplement" && cachedPath:
+		case i == result && opName == "ReverseComplement" && cachedPath && rcDoc:
 			key := "ReverseComplement/cached-original:stale-value"
 			if prevMod == "RCin" {
 				key += ":receiver-reverse-complemented-in-place"
@@ -1028,13 +1340,33 @@ func (w *c07world) probe(st *c07step, opName string, result int) *c07viol {
 			if v != nil {
 				return v
 			}
-			if mm, ok := a["m"].(map[string]int); ok {
-				old := mm["x"]
-				mm["x"] = 99
+			// every nested map (m, pairing_mismatches in either Go representation): write an entry
+			nested := make([]string, 0, 2)
+			for k := range a {
+				nested = append(nested, k)
+			}
+			sort.Strings(nested)
+			for _, k := range nested {
+				var set, unset func()
+				switch mm := a[k].(type) {
+				case map[string]int:
+					set, unset = func() { mm["C07PROBE"] = 99 }, func() { delete(mm, "C07PROBE") }
+				case map[string]interface{}:
+					set, unset = func() { mm["C07PROBE"] = float64(99) }, func() { delete(mm, "C07PROBE") }
+				default:
+					continue
+				}
+				set()
 				o.m.ann = c07annCanon(o.impl)
+				pmm := o.m.pm
+				if k == "pairing_mismatches" {
+					o.m.pm = c07pmClone(pmm)
+					o.m.pm["C07PROBE"] = 99
+				}
 				v := check(i, "annotations(nested map)", 0)
-				mm["x"] = old
+				unset()
 				o.m.ann = am
+				o.m.pm = pmm
 				if v != nil {
 					return v
 				}
@@ -1137,7 +1469,7 @@ func (w *c07world) canon() string {
 	for i, o := range w.objs {
 		fmt.Fprintf(&sb, "o%d:", i)
 		if o.alive {
-			fmt.Fprintf(&sb, "%s/%v/%s/%s", o.m.seq, o.m.qual, o.m.feat, o.m.ann)
+			fmt.Fprintf(&sb, "%s/%v/%s/%s/%s", o.m.seq, o.m.qual, o.m.feat, o.m.ann, c07pmString(o.m.pm))
 		} else {
 			sb.WriteString("dead")
 		}
@@ -1422,13 +1754,15 @@ func TestVerifC07(t *testing.T) {
 					pos = append(pos, p)
 				}
 			}
-			c := c07case{Kind: "E1ann", S: "acgtac"[:L], Pos: pos}
-			c07resetPools()
-			n := c07e1ann(c, fail(c))
-			r.Eval(1)
-			r.Trans(n)
-			r.Count("e1_annotation_law_instances", n)
-			r.State(fmt.Sprintf("E1ann:%d:%d", L, mask))
+			for rep := range c07annReps {
+				c := c07case{Kind: "E1ann", S: "acgtac"[:L], Pos: pos, Rep: rep}
+				c07resetPools()
+				n := c07e1ann(c, fail(c))
+				r.Eval(1)
+				r.Trans(n)
+				r.Count("e1_annotation_law_instances", n)
+				r.State(fmt.Sprintf("E1ann:%d:%d:%d", L, mask, rep))
+			}
 		}
 	}
 	r.Sample(c07case{Kind: "E1", S: "r[n", Upper: true, Q: 2})
